@@ -170,6 +170,8 @@ func runC18(c *Ctx) {
 		}
 		c.Check(len(why) == 0, "R2", funcName(wp), wp.Pos(), "lookup and recording of the same digest before answering 'not processed'", strings.Join(why, "; "))
 	}
+	cacheOptionAlwaysSets(c, "R2")
+	batchPerMessage(c, "R2")
 	// ---- R3
 	// the routing decision is part of Send, whether it lives in a helper (route) or inline: described
 	// in Send's own vocabulary (source of the message = msg.From, the agent = a.Self)
@@ -251,6 +253,10 @@ func runC18(c *Ctx) {
 	}
 	// ---- R4
 	checkGuards(c, "R4", []guardSpec{{"gossip", "Topology", "m", "gossip.Topology.Mutex", false, "the agent's view of the network: written by join/leave notifications from memberlist's goroutines, read by every send"}})
+	// every lock of the gossip layer is released on every exit (a leaked topology lock stalls join/leave
+	// notifications and every send)
+	c.Rule("R6", "gossip locks released on every exit", 5)
+	checkUnlocks(c, "R6", []string{"gossip"})
 	// ---- R5
 	{
 		n, bad := 0, 0
